@@ -7,7 +7,7 @@ Local Open Scope Z_scope.
 
 (* ---------------------------------------------------------------- part A: the default emitter *)
 (* For every history of emit calls (front: offset < 0, back: offset >= 0, any piece sizes, any number of pages), resets
-   and recycling of unused pages: the bytes between the cursors, read in address order across the pages in use, are the
+   (each with any number of retained spare pages) and recycling of unused pages: the bytes between the cursors, read in address order across the pages in use, are the
    front pieces prepended and the back pieces appended; the first byte's virtual address (page_offset + cursor) is minus
    the number of front bytes; `used` (flatcc_emitter_get_buffer_size) is the length; capacity counts the pages. *)
 Theorem C12_emitter_refines : forall P alloc, 0 < P -> P mod 2 = 0 ->
@@ -62,14 +62,27 @@ Theorem C12_direct_buffer_spec : forall P alloc, 0 < P -> P mod 2 = 0 ->
 Proof. exact direct_buffer_spec. Qed.
 Print Assumptions C12_direct_buffer_spec.
 
-(* Reset empties the stream; whatever pages the heuristic retained, every later history refines from empty. *)
+(* Reset empties the stream and leaves at most the front page in use.  How many spare pages the reset keeps is a pool
+   policy of the implementation, an oracle input [keep] of the model: for EVERY value of it, every later history refines
+   from empty. *)
 Theorem C12_reset_reuse : forall P alloc, 0 < P -> P mod 2 = 0 ->
-  forall h0 st0, Forall wf_op h0 -> run P alloc est_init h0 = Some st0 ->
-  abs P (reset P st0) = [] /\ used (reset P st0) = 0 /\ start_off (reset P st0) = 0 /\
-  forall h st, Forall wf_op h -> run P alloc (reset P st0) h = Some st ->
+  forall h0 st0 keep, Forall wf_op h0 -> run P alloc est_init h0 = Some st0 ->
+  abs P (reset P keep st0) = [] /\ used (reset P keep st0) = 0 /\ start_off (reset P keep st0) = 0 /\
+  (length (pages (reset P keep st0)) <= 1)%nat /\
+  forall h st, Forall wf_op h -> run P alloc (reset P keep st0) h = Some st ->
     abs P st = fst (spec h) /\ start_off st = snd (spec h) /\ used st = zlen (fst (spec h)).
 Proof. exact reset_reuse. Qed.
 Print Assumptions C12_reset_reuse.
+
+(* The pool policy is unobservable: resets retaining different numbers of pages agree, after any common later history,
+   on the stream, its size, its start address and what copy_buffer returns. *)
+Theorem C12_reset_policy_unobservable : forall P alloc, 0 < P -> P mod 2 = 0 ->
+  forall h0 st0 k1 k2 h st1 st2, Forall wf_op h0 -> run P alloc est_init h0 = Some st0 -> Forall wf_op h ->
+  run P alloc (reset P k1 st0) h = Some st1 -> run P alloc (reset P k2 st0) h = Some st2 ->
+  abs P st1 = abs P st2 /\ used st1 = used st2 /\ start_off st1 = start_off st2 /\
+  forall size, used st1 <= size -> pages st1 <> [] -> pages st2 <> [] -> copy_buffer P st1 size = copy_buffer P st2 size.
+Proof. exact reset_policy_unobservable. Qed.
+Print Assumptions C12_reset_policy_unobservable.
 
 (* The generated page size satisfies the hypotheses. *)
 Theorem C12_page_size_ok : 0 < EMITTER_PAGE_SIZE /\ EMITTER_PAGE_SIZE mod 2 = 0.
